@@ -51,6 +51,7 @@ fn eval_line(ctx: &Ctx, line: &str) -> String {
                 if opn.ends_with(".mem") { create::eval_mem(&a) }
                 else if opn.ends_with(".cli") { create::eval_cli(*ctxp, &a) }
                 else if opn.ends_with(".same") { create::eval_same(*ctxp, &a) }
+                else if opn.ends_with(".mass") { create::eval_mass(*ctxp, &a) }
                 else { None }
             }
             _ => None,
